@@ -503,6 +503,7 @@ structure AtClass (u : ClassUnit) (ids clzs : List String) (path : String) (A : 
   a10 : A.clzs = clzs
   a11 : A.identKeys = ids
   a12 : A.node.ext = ""
+  a13 : A.clz = ""
 
 theorem prefix_spec (u : ClassUnit) (st0 : FSt) (ids clzs : List String) (path : String) :
     AtClass u ids clzs path
@@ -515,7 +516,7 @@ theorem prefix_spec (u : ClassUnit) (st0 : FSt) (ids clzs : List String) (path :
         node := { (onEv { identKeys := ids, clzs := clzs, fileName := path } (Ev.pkg u.pkg)).node with
           imports := (onEv { identKeys := ids, clzs := clzs, fileName := path } (Ev.pkg u.pkg)).node.imports ++ u.imports } } rfl
   rw [hov]
-  exact ⟨rfl, rfl, rfl, rfl, rfl, rfl, by simp [onEv], by simp [onEv], by simp [onEv], rfl, rfl, rfl⟩
+  exact ⟨rfl, rfl, rfl, rfl, rfl, rfl, by simp [onEv], by simp [onEv], by simp [onEv], rfl, rfl, rfl, rfl⟩
 
 /-- **C01, full pass, class units** -/
 theorem class_file_exact (u : ClassUnit) (hok : u.ok) (st0 : FSt) (ids clzs : List String) (path : String) :
@@ -528,7 +529,7 @@ theorem class_file_exact (u : ClassUnit) (hok : u.ok) (st0 : FSt) (ids clzs : Li
   have hA := prefix_spec u st0 ids clzs path
   generalize (List.foldl onEv (List.foldl onEv (onEv (newListener st0 ids clzs path) (Ev.pkg u.pkg)) (List.map Ev.imp u.imports))
         (List.map Ev.anno u.annos)) = A at hA ⊢
-  obtain ⟨a1, a2, a3, a4, a5, a6, a7, a8, a9, a10, a11, a12⟩ := hA
+  obtain ⟨a1, a2, a3, a4, a5, a6, a7, a8, a9, a10, a11, a12, _⟩ := hA
   obtain ⟨s1, s2, s3, s4, s5, s6, s7, s8, s9, s10, s11, s12, s13, s14⟩ := enterClass_spec A u.name u.ext u.impls
   generalize onEv A (.enterClass u.name u.ext u.impls) = S at *
   have hI : Inv u.pkg u.name (hdr S) S [] :=
